@@ -1193,6 +1193,80 @@ func c12GenSchedCache(r *verifh.Rng) verifh.Section {
 	return verifh.Section{Cfg: fmt.Sprintf("n=300 interval=%d mode=sched client=cache%s expire=%d pri=%s", sec, opt, expire, c12Pri(r)), Ops: ops}
 }
 
+
+// c12GenSchedGoexit: callbacks that call runtime.Goexit (what testing.T.FailNow does) or panic, inside batches of
+// several timers due at one tick, at the following ticks, and in Drains. The goroutine of runTasks ends at a Goexit:
+// which timers of the tick are behind it depends on the order of the slot list, so these sections only set keys
+// that are not pending (the order of the slot is then the order of the sets, in the code and in the model).
+func c12GenSchedGoexit(r *verifh.Rng) verifh.Section {
+	n := r.Pick(2, 3, 5, 8)
+	interval := r.Pick(1, 7)
+	pending := map[int]int{}
+	abs := 0
+	var ops []string
+	free := func() int {
+		for i := 0; i < 30; i++ {
+			if k := r.Intn(12); pending[k] == 0 {
+				return k
+			}
+		}
+		return -1
+	}
+	set := func(k, steps int) {
+		if k < 0 {
+			return
+		}
+		ops = append(ops, fmt.Sprintf("set %d %d %d", k, r.Intn(1000), steps*interval+r.Intn(interval)))
+		pending[k] = abs + steps
+	}
+	tick := func() {
+		ops = append(ops, "tick")
+		abs++
+		for k, due := range pending {
+			if due <= abs {
+				delete(pending, k)
+			}
+		}
+	}
+	kind := func() string { return r.PickS("goexit", "goexit", "err", "str") }
+	for j := r.Range(4, verifh.Scale(25, 40)); j > 0; j-- {
+		switch x := r.Intn(20); {
+		case x < 5:
+			set(free(), r.Pick(1, 1, 2, 3, n, n+1, 2*n+1))
+		case x < 10:
+			steps := r.Range(1, 2)
+			var batch []int
+			for i := r.Range(2, 4); i > 0; i-- {
+				if k := free(); k >= 0 {
+					set(k, steps)
+					batch = append(batch, k)
+				}
+			}
+			for i := r.Range(1, 2); i > 0 && len(batch) > 0; i-- {
+				ops = append(ops, fmt.Sprintf("boom %d %s", batch[r.Intn(len(batch))], kind()))
+			}
+			if r.Bool() {
+				set(free(), steps+1) // due at the tick after the Goexit
+			}
+		case x < 11:
+			k := r.Intn(12)
+			ops = append(ops, fmt.Sprintf("remove %d", k))
+			delete(pending, k)
+		case x < 12:
+			ops = append(ops, fmt.Sprintf("boom %d %s", r.Intn(12), kind()))
+		case x < 13:
+			ops = append(ops, "drain")
+			pending = map[int]int{}
+		default:
+			tick()
+		}
+	}
+	for i := r.Pick(2, 3, n+1); i > 0; i-- {
+		tick()
+	}
+	return verifh.Section{Cfg: fmt.Sprintf("n=%d interval=%d mode=sched client=wheel pri=%s", n, interval, c12Pri(r)), Ops: ops}
+}
+
 func c12GenSched(r *verifh.Rng) []verifh.Section {
 	var secs []verifh.Section
 	// every NewCache leaves its statLoop goroutine behind and the goroutine dump grows with it: fewer cache sections
@@ -1201,6 +1275,9 @@ func c12GenSched(r *verifh.Rng) []verifh.Section {
 	}
 	for i := verifh.Scale(60, 250); i > 0; i-- {
 		secs = append(secs, c12GenSchedCache(r))
+	}
+	for i := verifh.Scale(40, 300); i > 0; i-- {
+		secs = append(secs, c12GenSchedGoexit(r))
 	}
 	return secs
 }
@@ -1344,6 +1421,8 @@ func (s *c12HoldSink) exec(k, v any) {
 		panic(fmt.Errorf("c12: callback of key %s panics with an error value", ks))
 	case "str":
 		panic("c12: callback of key " + ks + " panics with a string")
+	case "goexit":
+		runtime.Goexit()
 	}
 }
 
@@ -1521,7 +1600,7 @@ func TestVerifC12Sched(t *testing.T) {
 				}
 				sink.mu.Unlock()
 				return "armed"
-			case op[0] == "boom" && len(op) == 3 && (op[2] == "err" || op[2] == "str"):
+			case op[0] == "boom" && len(op) == 3 && (op[2] == "err" || op[2] == "str" || op[2] == "goexit"):
 				sink.mu.Lock()
 				sink.booms[op[1]] = op[2]
 				sink.mu.Unlock()
